@@ -3,26 +3,25 @@
  "property": ["C08", "C09", "C14"],
  "entry": "h_gotheaders",
  "enforce": ["gotheaders"],
- "replace": ["callback_read_header", "callback_chunkedheader", "get_body_gotclen", "callback_read_toeof"],
+ "replace": ["findeol", "callback_read_header", "callback_chunkedheader", "get_body_gotclen", "callback_read_toeof"],
  "annotate": ["http/http.c"],
- "defines": ["VERIF_HALLOC", "HTTP_N=24", "HTTP_HB=20", "HTTP_BODYMAX=8", "VERIF_STRMAX=24", "HTTP_MAYFAIL", "VERIF_NO_DIRTY"],
- "thorough_defines": ["HTTP_N=40", "HTTP_HB=34", "VERIF_STRMAX=40"],
- "models": ["models/libc_string.c", "models/http_env.c", "models/libc_mem.c"],
- "cbmc": ["--malloc-may-fail", "--malloc-fail-null"],
- "loop_contracts": false,
- "unwind": 26, "thorough_unwind": 42,
- "bounded": true, "bound": "header block <= 20 bytes quick / 34 thorough (<= 10 / 17 lines); the agreement of the counting pass and the parsing pass is proved by unwinding, not by induction",
+ "defines": ["VERIF_HALLOC", "HTTP_N=32", "HTTP_HB=32", "HTTP_BODYMAX=8", "VERIF_STRMAX=36", "HTTP_MAYFAIL"],
+ "thorough_defines": ["HTTP_N=64", "HTTP_HB=64", "VERIF_STRMAX=68"],
+ "models": ["models/http_string.c", "models/http_env.c", "models/libc_mem.c"],
+ "cbmc": ["--malloc-may-fail", "--malloc-fail-null", "--object-bits", "9"],
+ "expect_loops": ["http_findheader", "strlen", "strcmp", "strcspn", "strspn", "strstr"],
  "allow_undefined": ["strtod", "strtoimax", "fprintf", "abort"],
- "timeout": 900,
- "assumptions": ["header block <= HTTP_HB bytes (BOUNDED: the two passes over the lines are unwound)", "sscanf: writes up to three ints, returns -1..3; strtoumax: C11 (models/http_env.c)",
-   "callback_read_header, callback_chunkedheader, get_body_gotclen, callback_read_toeof: replaced by their contracts (enforced in their own groups); findeol, sgetline, http_findheader, imalloc and the exits docallback, fail, die, http_request_cancel are inlined (real code; a contract replaced inside an unwound loop is instantiated once per iteration and exhausts cbmc's object numbering)",
+ "timeout": 1200,
+ "assumptions": ["header block <= HTTP_HB bytes (object-size parameter: bounds the quantifiers and the ghost line record; the counting pass, the parsing pass and the OWS loop are closed by loop contracts, for any number of lines)",
+   "sscanf: writes up to three ints, returns -1..3; strtoumax: C11 (models/http_env.c)",
+   "findeol, callback_read_header, callback_chunkedheader, get_body_gotclen, callback_read_toeof: replaced by their contracts (enforced in their own groups); sgetline, http_findheader, imalloc and the exits docallback, fail, die, http_request_cancel are inlined (real code; 13 more replaced call sites exhaust cbmc's object numbering); sgetline's in-code assertion is proved in this context",
    "malloc may fail (HTTP_MAYFAIL: die() is then allowed without an environment failure)"]
 }
 */
 /*
  * gotheaders on every header block of up to HTTP_HB bytes that ends with the window's first "\r\n\r\n": memory-safe;
  * sgetline's "an EOL exists" assertion and the final `bufpos + 2 == res_headlen` assertion hold (the counting pass and
- * the parsing pass agree); every callee's entry condition holds at its call site -- in particular the 1xx restart must
+ * the parsing pass agree: loop invariants over a ghost record of the lines); every callee's entry condition holds at its call site -- in particular the 1xx restart must
  * re-establish callback_read_header's entry invariant (F1 is the failure of that obligation) --; allocation failure
  * => die().
  */
@@ -31,9 +30,6 @@
 #include "http/http.c"
 #include "http_h.h"
 
-#ifndef HTTP_HB
-#define HTTP_HB 20
-#endif
 
 void
 h_gotheaders(void)
